@@ -285,6 +285,16 @@ func (V *Verifier) goLiteral(t types.Type, path string, v Val, vals map[string]s
 			}
 			if _, ok := strs[x]; !ok {
 				strs[x] = fmt.Sprintf("s%d", len(strs))
+				switch {
+				case vals["(validAddr "+sc.T+")"] == "true":
+					strs[x] = fmt.Sprintf("\x00replayAddr(%d)", len(strs))
+				case vals["(validDenom "+sc.T+")"] == "true":
+					strs[x] = fmt.Sprintf("rdenom%c", 'a'+len(strs)%26)
+				}
+			}
+			if strings.HasPrefix(strs[x], "\x00") {
+				imports["\x00addr"] = true
+				return strs[x][1:], true
 			}
 			return fmt.Sprintf("%q", strs[x]), true
 		}
@@ -379,9 +389,13 @@ func (V *Verifier) tryReplay(prop string, o *Oblig, dir string) bool {
 			terms = append(terms, t)
 		}
 	}
+	strLeaf := map[string]bool{}
 	for _, l := range leaves {
 		add(l.sc.T)
 		add(l.sc.Nil)
+		if l.sc.Sort == "Str" {
+			strLeaf[l.sc.T] = true
+		}
 	}
 	// quantified background facts that do not mention the inputs (balances are non-negative, ...) are dropped from the
 	// model query; a quantified assumption about an input (a quantified precondition) means: no replay
@@ -410,7 +424,18 @@ func (V *Verifier) tryReplay(prop string, o *Oblig, dir string) bool {
 		}
 		asked = append(asked, t)
 	}
-	vals, ok := modelValues(q, asked, dir)
+	// strings are abstract in the model; whether one has to be a well-formed address or denomination is asked too, so
+	// that the replay can use a real bech32 address / a valid denomination in its place
+	strPreds := func(as []string) []string {
+		out := as
+		for _, t := range as {
+			if !strings.HasPrefix(t, "(validAddr ") && !strings.HasPrefix(t, "(validDenom ") && strLeaf[t] {
+				out = append(out, "(validAddr "+t+")", "(validDenom "+t+")")
+			}
+		}
+		return out
+	}
+	vals, ok := modelValues(q, strPreds(asked), dir)
 	if !ok {
 		return false
 	}
@@ -443,7 +468,12 @@ func (V *Verifier) tryReplay(prop string, o *Oblig, dir string) bool {
 					asked2 = append(asked2, t)
 				}
 			}
-			vals2, ok := modelValues(q, asked2, dir)
+			for _, l := range elemLeaves {
+				if l.sc.Sort == "Str" {
+					strLeaf[l.sc.T] = true
+				}
+			}
+			vals2, ok := modelValues(q, strPreds(asked2), dir)
 			if !ok {
 				return false
 			}
@@ -567,6 +597,10 @@ func (V *Verifier) tryReplay(prop string, o *Oblig, dir string) bool {
 	}
 	sort.Strings(imps)
 	for _, k := range imps {
+		if k == "\x00addr" {
+			fmt.Fprintf(&src, "\treplaysdk %q\n", "github.com/cosmos/cosmos-sdk/types")
+			continue
+		}
 		fmt.Fprintf(&src, "\t%q\n", k)
 	}
 	var aliased []string
@@ -580,6 +614,9 @@ func (V *Verifier) tryReplay(prop string, o *Oblig, dir string) bool {
 	src.WriteString(")\n\n")
 	src.WriteString("func replayInt(s string) math.Int { b, _ := new(big.Int).SetString(s, 10); return math.NewIntFromBigInt(b) }\n")
 	src.WriteString("func replayDec(s string) math.LegacyDec { b, _ := new(big.Int).SetString(s, 10); return math.LegacyNewDecFromBigIntWithPrec(b, 18) }\n")
+	if imports["\x00addr"] {
+		src.WriteString("func replayAddr(k int) string { b := make([]byte, 20); b[0], b[19] = byte(k+1), 0x5a; return replaysdk.AccAddress(b).String() }\n")
+	}
 	if imports["time"] {
 		src.WriteString("func replayTime(s string) time.Time { b, _ := new(big.Int).SetString(s, 10); return time.Unix(0, b.Int64()).UTC() }\n")
 	}
